@@ -134,10 +134,7 @@ func runC13(c *Ctx) {
 			})
 			var psetObj eng.Object
 			gProto, _ := cf.Guarded(loc, func(ft eng.Fact) bool {
-				if ft.Tag != nil || !ft.Truth {
-					return false
-				}
-				ix, ok := eng.Unparen(ft.Expr).(*ast.IndexExpr)
+				ix, ok := memberFact(cf, ft)
 				if !ok {
 					return false
 				}
@@ -162,7 +159,8 @@ func runC13(c *Ctx) {
 					return ok && eng.IsObj(info, ix.X, psetObj)
 				}) {
 					for x := p.Parent(as); x != nil; x = p.Parent(x) {
-						if rg, ok := x.(*ast.RangeStmt); ok && eng.IsField(info, rg.X, "dht.IpfsDHT.serverProtocols") && isBoolConst(info, as.Rhs[0], true) {
+						_, isSetElem := eng.Unparen(as.Rhs[0]).(*ast.CompositeLit) // struct{}{} of a set
+						if rg, ok := x.(*ast.RangeStmt); ok && eng.IsField(info, rg.X, "dht.IpfsDHT.serverProtocols") && (isBoolConst(info, as.Rhs[0], true) || isSetElem) {
 							ix := eng.Unparen(as.Lhs[0]).(*ast.IndexExpr)
 							if rg.Value != nil && eng.SameExpr(info, ix.Index, rg.Value) {
 								okSet = true
@@ -257,6 +255,15 @@ func runC13(c *Ctx) {
 				for _, r := range []string{"ReachabilityPrivate", "ReachabilityPublic", "ReachabilityUnknown"} {
 					if g, _ := cf.Guarded(loc, reach(r)); g {
 						under = r
+					}
+				}
+				if under == "" && val == "" {
+					// the zero mode for a reachability outside the table (the declaration's
+					// default, or a never-assigned zero variable handed back by a helper)
+					if o, isVar := eng.ObjOf(info, as.Rhs[0]).(*eng.Var); isVar && !o.IsField() {
+						if defs := assignsDeep(f.Root(), o); len(defs) == 0 || (len(defs) == 1 && defs[0] == nil) {
+							continue
+						}
 					}
 				}
 				ok := false
